@@ -45,6 +45,9 @@ type relHdr struct {
 	CDH             int64
 	Bad             bool
 	Chain           string
+	CH              string // Commit.BlockID.Hash: "" real | "tracked" (the tracked block hash) | "garbage"
+	CM              string // commit mode: "" | "empty" | "nil"
+	TS              int64  // time shift of the body
 }
 
 type event struct {
@@ -68,6 +71,15 @@ func (e event) String() string {
 		}
 		if h.Chain != "" {
 			s += "/chain=" + h.Chain
+		}
+		if h.CH != "" {
+			s += "/commithash=" + h.CH
+		}
+		if h.CM != "" {
+			s += "/commit=" + h.CM
+		}
+		if h.TS != 0 {
+			s += fmt.Sprintf("/timeshift%+d", h.TS)
 		}
 		parts = append(parts, s)
 	}
@@ -215,6 +227,14 @@ func (c *ctx) partB(fams []*family, kits map[string]*depKit) bStats {
 							}
 						}
 					}
+					// header at the tracked epoch height itself whose commit merely CLAIMS the tracked block hash
+					for _, x := range []relHdr{{Sigs: all(sCommit, nT)}, {Sigs: all(sCommit, nT), TS: 1}, {Sigs: all(sAbsent, nT), TS: 1}, {Sigs: all(sAbsent, nT), CM: "empty", TS: 1}, {Sigs: all(sAbsent, nT), CM: "nil", TS: 1}} {
+						x.DH, x.Ver, x.Vals, x.Hdr, x.Next, x.CH = 0, ver, T, T, T, "tracked"
+						if x.CM == "nil" {
+							x.CH = ""
+						}
+						out = append(out, name(event{Kind: "dep", Hdrs: []relHdr{x}, Proof: "exist"}))
+					}
 					W := others(T)[0]
 					for _, pf := range []string{"exist", "absent-kp-empty"} {
 						out = append(out, name(event{Kind: "dep", Hdrs: []relHdr{{DH: 1, Ver: ver, Vals: W, Hdr: W, Next: W, Sigs: all(sCommit, len(U[W].keys))}}, Proof: pf}))
@@ -242,7 +262,13 @@ func (c *ctx) partB(fams []*family, kits map[string]*depKit) bStats {
 					chain = h.Chain
 				}
 				sp := hdrSpec{ChainID: chain, Ver: h.Ver, Height: before.Height + h.DH, Vals: U[h.Vals], HdrVals: U[h.Hdr], Next: U[h.Next], Sigs: h.Sigs,
-					AppHash: appHash, CommitDH: h.CDH, BadBlock: h.Bad, Memo: true}
+					AppHash: appHash, CommitDH: h.CDH, BadBlock: h.Bad, CommitMode: h.CM, TimeShift: h.TS, Memo: true}
+				switch h.CH {
+				case "tracked":
+					sp.CommitHash = before.BlockHash
+				case "garbage":
+					sp.CommitHash = fill(0x99)
+				}
 				raw, hh := f.raw(sp)
 				sps, raws, hashes = append(sps, sp), append(raws, raw), append(hashes, hh)
 			}
@@ -278,7 +304,7 @@ func (c *ctx) partB(fams []*family, kits map[string]*depKit) bStats {
 			anyOK := false
 			cur := before
 			for i, sp := range sps {
-				if ok, _ := f.refOK(sp, cur, true); ok {
+				if ok, _ := f.refOK(sp, hashes[i], cur, true); ok {
 					anyOK = true
 					cur = f.apply(sp, hashes[i])
 				}
@@ -290,7 +316,7 @@ func (c *ctx) partB(fams []*family, kits map[string]*depKit) bStats {
 					r.Class("B:ref-not-ok")
 				}
 			} else if e.Kind == "dep" {
-				c.checkDeposit(f, "B", before, sps[0], dc, res, replay)
+				c.checkDeposit(f, "B", before, sps[0], hashes[0], dc, res, replay)
 			}
 			if e.Kind == "gen" {
 				r.Class("B:ref-not-ok")
@@ -304,7 +330,7 @@ func (c *ctx) partB(fams []*family, kits map[string]*depKit) bStats {
 			if adv && len(s.path) == 1 {
 				r.Sample(replay())
 			}
-			_, why := f.refOK(sps[len(sps)-1], before, true)
+			_, why := f.refOK(sps[len(sps)-1], hashes[len(sps)-1], before, true)
 			r.Case(fmt.Sprintf("B/%s/%s/n=%d/%s/adv=%v", f.name, e.Kind, len(sps), why, adv))
 			if sps[0].ChainID != tmChainID && adv {
 				r.Class("observed:" + f.name + "-accepts-header-of-foreign-chain-id")
